@@ -331,6 +331,90 @@ def miri_leg(m, pid, what, seeds, miriflags=''):
     m.coverage[f'miri.{what}.reports'] = sum(1 for k in m.violations if ':miri:' in k)
 
 
+TSAN_TARGET = 'x86_64-unknown-linux-gnu'
+
+
+def build_tsan():
+    """Build the harness with ThreadSanitizer (nightly, -Zbuild-std so std itself is instrumented). Returns the binary path or None."""
+    d = hdir()
+    build()  # makes sure Cargo.toml / Cargo.lock exist for this repo
+    env = cargo_env('-Zsanitizer=thread')
+    env['CARGO_TARGET_DIR'] = os.path.join(d, 'target-tsan')
+    with open(os.path.join(d, '.build-tsan.lock'), 'w') as lk:
+        fcntl.flock(lk, fcntl.LOCK_EX)
+        p = subprocess.run(['cargo', '+nightly', 'build', '--release', '-q', '-Zbuild-std', '--target', TSAN_TARGET], cwd=d, env=env,
+                           stdout=subprocess.PIPE, stderr=subprocess.PIPE)
+    b = os.path.join(d, 'target-tsan', TSAN_TARGET, 'release', 'vh')
+    if p.returncode != 0 or not os.path.exists(b):
+        return None, p.stderr.decode('utf-8', 'replace')[-400:]
+    return b, ''
+
+
+def _tsan_run(binary, vh_args, out, timeout=1800):
+    env = dict(os.environ)
+    env['TSAN_OPTIONS'] = 'halt_on_error=0 exitcode=66 second_deadlock_stack=1'
+    try:
+        p = subprocess.run([binary] + [str(a) for a in vh_args] + ['--out', out], env=env, stdout=subprocess.PIPE, stderr=subprocess.PIPE, timeout=timeout)
+    except subprocess.TimeoutExpired:
+        return None, '', 'watchdog timeout'
+    return p.returncode, p.stderr.decode('utf-8', 'replace'), ''
+
+
+def _tsan_reports(err):
+    """Split ThreadSanitizer output into report blocks; key each by kind + first frame inside the repository (line numbers stripped)."""
+    import re
+    blocks = [b for b in err.split('==================') if 'WARNING: ThreadSanitizer' in b]
+    out = {}
+    for b in blocks:
+        kind = re.search(r'WARNING: ThreadSanitizer: ([^(\n]+)', b)
+        kind = kind.group(1).strip() if kind else '?'
+        frame = '?'
+        for l in b.splitlines():
+            mm = re.search(r'#\d+ (\S+) (\S+?):\d+', l)
+            if mm and ('/rbx_' in mm.group(2) or '/harness/src/' in mm.group(2)):
+                frame = mm.group(1)[:80] + '@' + re.sub(r'^.*/(rbx_[^/]+/.*|harness/src/.*)$', r'\1', mm.group(2))
+                break
+        out.setdefault(f'{kind}:{frame}', b[:1500])
+    return len(blocks), out
+
+
+def tsan_leg(m, pid, workloads, rundir):
+    """Thorough-tier ThreadSanitizer leg: build once, prove the detector sees a planted race, then run the given
+    harness workloads (list of (label, vh_args)) under it. Every report block is a violation of `pid`."""
+    os.makedirs(rundir, exist_ok=True)
+    binary, why = build_tsan()
+    if not binary:
+        m.inconclusive.append(f'ThreadSanitizer build failed: {why}')
+        return
+    rc, err, why = _tsan_run(binary, ['tsan', '--what', 'selftest'], os.path.join(rundir, 'tsan-selftest.json'))
+    n, _ = _tsan_reports(err)
+    m.coverage['tsan.selftest.planted_race_reported'] = 1 if n > 0 else 0
+    if n == 0:
+        m.inconclusive.append(f'ThreadSanitizer did not report the planted race of the self-test (rc={rc} {why}): its silence would prove nothing')
+        return
+    for label, vh_args in workloads:
+        out = os.path.join(rundir, f'tsan-{label}.json')
+        rc, err, why = _tsan_run(binary, vh_args, out)
+        if rc is None:
+            m.inconclusive.append(f'tsan leg {label}: {why}')
+            continue
+        n, reps = _tsan_reports(err)
+        m.coverage[f'tsan.{label}.runs'] = m.coverage.get(f'tsan.{label}.runs', 0) + 1
+        m.coverage[f'tsan.{label}.report_blocks'] = m.coverage.get(f'tsan.{label}.report_blocks', 0) + n
+        for key, text in reps.items():
+            m.add_violation(f'{pid}:tsan:{key}', f'ThreadSanitizer reported: {text}', {'cmd': vh_args[0], 'args': [str(a) for a in vh_args[1:]], 'tool': 'tsan'}, None)
+        if rc not in (0, 66) or not os.path.exists(out):
+            m.inconclusive.append(f'tsan leg {label} exited {rc}: {err[-300:]}')
+            continue
+        summ = json.load(open(out))
+        m.evaluations += summ.get('evaluations', 0)
+        for k, v in summ.get('coverage', {}).items():
+            m.coverage[k] = m.coverage.get(k, 0) + v
+        for v in summ.get('violations', []):
+            if v['sig'].startswith(pid + ':'):
+                m.add_violation(v['sig'], v['what'] + ' (under ThreadSanitizer)', v.get('replay'), None, v.get('count', 1))
+
+
 def valgrind_leg(m, pid, vh_args, rundir, label, env_extra=None, wrap_supervisor=True, timeout=3000):
     """Run one harness command under valgrind memcheck (instruments the vendored lz4 / zstd C code too)."""
     os.makedirs(rundir, exist_ok=True)
